@@ -83,6 +83,14 @@ impl EngineModel {
             final(self).ds@ == spec_srem(old(self).ds@, db as int, key@, refs_set(members@, members@.len() as int)).1,
     { unimplemented!() }
 }
+impl EngineModel {
+    /// the same engine function with the members handed over by value vector (script path)
+    #[verifier::external_body]
+    pub fn srem_v(&mut self, db: usize, key: &[u8], members: &Vec<Vec<u8>>) -> (r: Result<usize>)
+        ensures res_int(r, spec_srem(old(self).ds@, db as int, key@, vecs_set(members@)).0),
+            final(self).ds@ == spec_srem(old(self).ds@, db as int, key@, vecs_set(members@)).1,
+    { unimplemented!() }
+}
 //@@ unit handle_srem fn src/storage/commands/sets.rs handle_srem
 //@@   params drop "storage: &Arc<StorageEngine>" add "storage: &mut EngineModel"
 //@@   rewrite R3
@@ -177,6 +185,16 @@ pub fn handle_spop(storage: &mut EngineModel, db: usize, parts: &[RespFrame]) ->
 /// MODEL of UnifiedCommandExecutor (the implementation scripts reach through redis.call): the storage engine model
 pub struct UnifiedCommandExecutor { pub storage: EngineModel }
 impl UnifiedCommandExecutor {
+//@@ unit exec_srem arm src/storage/commands/executor.rs UnifiedCommandExecutor::execute_set "SetCommand::SRem { key, members }"
+//@@   params drop "&self" add "&mut self"
+//@@   rewrite RT "self.storage.srem(db, &key, &members)" "self.storage.srem_v(db, &key, &members)"
+    fn exec_srem(&mut self, db: usize, key: Vec<u8>, members: Vec<Vec<u8>>) -> (r: Result<RespFrame>)
+        ensures
+            // the effect and the reply of the direct SREM for the same members (handle_srem above)
+            r is Ok ==> cmd_ok(r, final(self).storage.ds@, spec_srem(old(self).storage.ds@, db as int, key@, vecs_set(members@))),
+            r is Err ==> spec_srem(old(self).storage.ds@, db as int, key@, vecs_set(members@)).0 is WrongType && final(self).storage.ds@ == old(self).storage.ds@,
+//@@ body
+//@@ end
 //@@ unit exec_spop arm src/storage/commands/executor.rs UnifiedCommandExecutor::execute_set "SetCommand::SPop { key, count }"
 //@@   params drop "&self" add "&mut self"
 //@@   rewrite? RXPR "members.into_iter().next()" "verif_first_member(members)"
